@@ -14,7 +14,7 @@ fix_first_pose=False, under-constrained graphs).
 from gsv.ob import Ob
 from gsv.kernel import POSE_C
 from gsv.contracts import common, graphs
-from gsv.contracts.c03 import run_one_iteration, has_se3
+from gsv.contracts.c03 import run_one_iteration, has_se3, _cut_chi2
 
 FUNCS = ["graphslam.graph.Graph.optimize", "graphslam.graph.Graph._calc_chi2_gradient_hessian", "graphslam.vertex.Vertex"]
 
@@ -86,6 +86,67 @@ def obligations(r, tier, seed):
                     k.check(v.fixed == before_fixed[p], "fixed flag of free vertex %d untouched" % p)
         obs.append(Ob("C06/reduced-problem/%s" % s["name"], ob2, scope="shape-bounded", bound="shape " + s["name"],
                       funcs=FUNCS, solver="constrained", light=not has_se3(s)))
+
+    # ---- the fixed set is the set of vertices marked AT THE TIME OF THE CALL (histories: marks changed between calls)
+    from gsv.specs import gn
+    from gsv.kernel import POSE_C as _C
+
+    def second_call_system(k, shape, first_call, remark):
+        """Build, optionally run a first optimize, change marks, run optimize(fix_first_pose=False, max_iter=1) and compare the
+        system of THAT call with the spec reduced system for the marks in force at that moment."""
+        ghost = common.Ghost()
+        g, vs, es = graphs.build(k, shape, ghost)
+        dims = [_C[T] for _, T, _ in shape["vertices"]]
+        cut = lambda self: _cut_chi2(self, k)
+        if first_call is not None:
+            with common.counting_spsolve(k, ghost), common.patched(k.r.Graph, calc_chi2=cut):
+                g.optimize(tol=0, max_iter=1, verbose=False, **first_call)
+        remark(vs)
+        marked = [i for i, v in enumerate(vs) if v.fixed]
+        H, b, offsets = gn.assemble(dims, graphs.spec_inputs(k, shape, vs, es))
+        A_spec, rhs_spec, fixed_idx = gn.reduced_system(H, b, offsets, dims, marked)
+        before = [v.pose.copy() for v in vs]
+        n_before = len(ghost.solver_calls)
+        with common.counting_spsolve(k, ghost), common.patched(k.r.Graph, calc_chi2=cut):
+            g.optimize(tol=0, max_iter=1, fix_first_pose=False, verbose=False)
+        k.check(len(ghost.solver_calls) == n_before + 1, "one solve in the call under test")
+        A, rhs, dx = ghost.solver_calls[-1]
+        A, rhs = k.dense(A), k.dense(rhs)
+        N = sum(dims)
+        k.system_equiv([[A[i, j] for j in range(N)] for i in range(N)], [rhs[i] for i in range(N)], A_spec, rhs_spec, [dx[i] for i in range(N)],
+                       "system of this call <=> reduced system for the vertices marked fixed at the time of the call", fixed_idx=fixed_idx)
+        for p_, v in enumerate(vs):
+            if p_ in marked:
+                k.same(v.pose.to_array(), before[p_].to_array(), "marked vertex %d did not move" % p_)
+            else:
+                k.eq(v.pose.to_array(), (before[p_] + k.np.array([dx[offsets[p_] + i] for i in range(dims[p_])])).to_array(), "unmarked vertex %d moved by its slice of dx" % p_)
+
+    hist_shape = {"vertices": [(0, "R2", False), (1, "R2", False), (2, "R2", False)], "edges": [("cut", (0, 1), 2), ("cut", (1, 2), 2), ("cut", (2, 0), 2)],
+                  "fix_first_pose": False, "idset": 0}
+
+    def hist_unmark_constructed(k):
+        sh = dict(hist_shape, vertices=[(0, "R2", True), (1, "R2", False), (2, "R2", True)])
+
+        def remark(vs):
+            vs[0].fixed = False            # created fixed, un-marked before the first call
+        second_call_system(k, sh, None, remark)
+    obs.append(Ob("C06/history/created-fixed-then-unmarked", hist_unmark_constructed, scope="shape-bounded", bound="3-vertex R2 cycle", funcs=FUNCS,
+                  solver="constrained", light=True))
+
+    def hist_two_calls(k):
+        def remark(vs):
+            vs[0].fixed = False            # vertex 0 was marked by the first call's fix_first_pose=True
+            vs[2].fixed = True
+        second_call_system(k, hist_shape, {"fix_first_pose": True}, remark)
+    obs.append(Ob("C06/history/first-call-marks-vertex0-then-remarked", hist_two_calls, scope="shape-bounded", bound="3-vertex R2 cycle, two calls", funcs=FUNCS,
+                  solver="constrained", light=True))
+
+    def hist_mark_after_first(k):
+        def remark(vs):
+            vs[1].fixed = True             # an additional vertex marked between the calls
+        second_call_system(k, hist_shape, {"fix_first_pose": False}, remark)
+    obs.append(Ob("C06/history/vertex-marked-between-calls", hist_mark_after_first, scope="shape-bounded", bound="3-vertex R2 cycle, two calls", funcs=FUNCS,
+                  solver="constrained", light=True))
 
     # canaries
     def canary(k):
